@@ -55,6 +55,8 @@ def _lib():
                                      TransitionMixin, TransitionOutcome, TuningMixin, TuningOutcome,
                                      WarmupOutcome)
     from liesel.goose.pytree import register_dataclass_as_pytree
+    from liesel.goose.engine import Engine
+    from liesel.goose.kernel_sequence import KernelSequence
 
     logging.getLogger("liesel").setLevel(logging.ERROR)
 
@@ -150,7 +152,7 @@ def _lib():
             return WarmupOutcome(error_code=i32(0), kernel_state=ks)
 
     _cache.update(jax=jax, jnp=jnp, np=np, gs=gs, EpochConfig=EpochConfig, EpochType=EpochType,
-                  LoggingKernel=LoggingKernel, LogState=LogState)
+                  LoggingKernel=LoggingKernel, LogState=LogState, Engine=Engine, KernelSequence=KernelSequence)
     return _cache
 
 
@@ -202,8 +204,8 @@ def build_engine(init_cfgs, n_chains, needs, chunk=None, seed=1, via="auto"):
         for idx, k in enumerate(kernels):
             k.set_model(model)
             k.identifier = f"kernel_{idx:02d}"
-        engine = gs.Engine(seeds=jnp.asarray(roots), model_states=state,
-                           kernel_sequence=gs.KernelSequence(kernels),
+        engine = L["Engine"](seeds=jnp.asarray(roots), model_states=state,
+                           kernel_sequence=L["KernelSequence"](kernels),
                            epoch_configs=[epoch_config(c) for c in init_cfgs],
                            jitted_sample_duration=int(chunk), model=model,
                            position_keys=[f"p{k}" for k in range(len(needs))],
